@@ -342,7 +342,11 @@ func replayFile(r *evid.Run, path string) int {
 			args = nil
 		}
 		s := &sessionRunner{r: r, self: self, args: args, alone: map[string]*sessObs{}, build: sp.Replay.Build}
-		s.runSession(sp.Replay.Session)
+		if sp.Replay.Concurrent {
+			s.runPair(sp.Replay.Session)
+		} else {
+			s.runSession(sp.Replay.Session)
+		}
 		if r.Violations() > 0 {
 			return 1
 		}
